@@ -59,6 +59,11 @@ def bump(stats, key, n=1):
     stats[key] = stats.get(key, 0) + n
 
 
+def is_err(a):
+    """an answer that is an exception class (`eKeyError`, `eTypeError!same`), not hex text starting with `e`"""
+    return len(a) > 1 and a[0] == 'e' and a[1].isupper()
+
+
 def mods():
     from ombott.request_pkg import helpers
     from ombott.request_pkg.request import Request
@@ -282,7 +287,7 @@ def hdr_case(rng, stats):
     bump(stats, 'helpers:hdr-cases')
     for o, a in zip(ops, outs):
         bump(stats, 'helpers:hdr-op-' + o[0])
-        if a.startswith('e'):
+        if is_err(a):
             bump(stats, 'helpers:hdr-' + a.split('!')[0])
     if any(isinstance(v, bytes) for v in env.values()):
         bump(stats, 'helpers:hdr-bytes-value')
@@ -440,8 +445,8 @@ def fd_case(rng, stats):
     for o, a in zip(ops, outs):
         bump(stats, 'helpers:fd-op-' + o[0])
         if o[0] == 'a':
-            bump(stats, 'helpers:fd-attr-' + ('method' if a == 'm' else 'error' if a.startswith('e') else 'none' if a == 'v:n' else 'value'))
-        elif a.startswith('e'):
+            bump(stats, 'helpers:fd-attr-' + ('method' if a == 'm' else 'error' if is_err(a) else 'none' if a == 'v:n' else 'value'))
+        elif is_err(a):
             bump(stats, 'helpers:fd-' + a)
         if a.startswith('l:') or a.startswith('v:l:'):
             bump(stats, 'helpers:fd-list-value')
@@ -568,7 +573,7 @@ def cd_case(rng, stats):
     bump(stats, 'helpers:cd-cases')
     for o, a in zip(ops, outs):
         bump(stats, 'helpers:cd-op-' + o[0])
-        if a.startswith('e'):
+        if is_err(a):
             bump(stats, 'helpers:cd-' + a)
         if o[0] in 'ua' and a.endswith('n'):
             bump(stats, 'helpers:cd-recode-default')
@@ -863,6 +868,12 @@ def oracle_fd_total(qs):
                     bad.append((f'formsdict:raises:{r[1]}', f'{what} of {k!r} on Request.{where} of {qs!r} raises {r[1]}'))
             if k in d and _try(lambda: d[k])[0] != 'ok':
                 bad.append(('formsdict:getitem', f'{k!r} is a key of Request.{where} of {qs!r} but cannot be read'))
+        # protocol probes (`hasattr(x, '__html__')`, pickle, copy) must not be answered from the form data
+        for name in ('__html__', '__x__', '__json__'):
+            r = _try(lambda: getattr(d, name))
+            if r != ('err', 'AttributeError'):
+                bad.append(('formsdict:dunder-attr', f'getattr(Request.{where}, {name!r}) = {r!r} on {qs!r}: a dunder name that dict '
+                                                     f'does not define must raise AttributeError'))
     return bad
 
 
@@ -977,6 +988,26 @@ def oracle_cookie_utf8(name, text):
     r = _try(lambda: dict(c.decode()))
     if r != ('ok', {name: text}):
         bad.append(('cookiedict:decode', f'decode() of a raw UTF-8 cookie {text!r} = {r!r}'))
+    return bad
+
+
+def oracle_cookie_undecodable(name, text):
+    """a cookie whose Latin-1 view is not valid UTF-8: `getunicode` returns "the value as a unicode string, or the
+    default" - it does not raise - and attribute access gives None; item access still shows the raw value"""
+    _, Request = mods()
+    hdr = f'{name}="{text}"'
+    c = Request({'HTTP_COOKIE': hdr}).cookies
+    bad = []
+    try:
+        text.encode('latin1').decode('utf8')
+        return bad                       # decodable after all: not this oracle's case
+    except UnicodeError:
+        pass
+    for what, fn, want in (('attr', lambda: getattr(c, name), None), ('getunicode', lambda: c.getunicode(name, 'dflt'), 'dflt'),
+                           ('getitem', lambda: c[name], text)):
+        r = _try(fn)
+        if r != ('ok', want):
+            bad.append((f'cookiedict:undecodable-{what}', f'cookie {name}={text!r} (not UTF-8) read through {what}: {r!r}, expected {want!r}'))
     return bad
 
 
@@ -1131,6 +1162,8 @@ def search_stream(rng, n, pid, stats, seeds=()):
             cases.append(('ck', (nm, v)))
         for nm, t in [('n', 'é'), ('n', '€'), ('sid', 'aé€b'), ('a', '\U0001f600'), ('a', 'plain')]:
             cases.append(('cku', (nm, t)))
+        for nm, t in [('n', 'é'), ('n', '\xff'), ('sid', 'a\xe9b'), ('a', '\xc3'), ('a', '\xe2\x82')]:
+            cases.append(('ckx', (nm, t)))
         for _ in range(n):
             k = rng.randrange(10)
             if k < 3:
@@ -1146,9 +1179,12 @@ def search_stream(rng, n, pid, stats, seeds=()):
             elif k < 9:
                 v = ''.join(rng.choice(ASCII_COOKIE_CHARS) for _ in range(rng.randint(1, 8)))
                 cases.append(('ck', (rng.choice(COOKIE_NAMES), v)))
-            else:
+            elif rng.random() < .7:
                 t = ''.join(rng.choice('abz019 é€中\U0001f600;=,') for _ in range(rng.randint(1, 6)))
                 cases.append(('cku', (rng.choice(COOKIE_NAMES), t)))
+            else:
+                t = ''.join(rng.choice('ab \xe9\xff\xc3\xa9\x80;=') for _ in range(rng.randint(1, 5)))
+                cases.append(('ckx', (rng.choice(COOKIE_NAMES), t)))
     findings, evals = [], 0
     for kind, x in cases:
         evals += 1
@@ -1169,6 +1205,8 @@ def search_stream(rng, n, pid, stats, seeds=()):
                 bad = oracle_xhr(*x)
             elif kind == 'ck':
                 bad = oracle_cookie_attr(*x)
+            elif kind == 'ckx':
+                bad = oracle_cookie_undecodable(*x)
             else:
                 bad = oracle_cookie_utf8(*x)
         except Exception as e:  # noqa: the oracle's own plumbing (Request construction, set_cookie) failed
@@ -1207,7 +1245,8 @@ def replay_case(i, pid):
         fn = dict(fd=lambda: oracle_fd([tuple(p) for p in x]), fdraw=lambda: oracle_fd_total(x),
                   hdr=lambda: oracle_headers([tuple(p) for p in x[0]], x[1], x[2]), auth=lambda: oracle_auth(*x),
                   authbad=lambda: oracle_auth_malformed(*x), rr=lambda: oracle_route(*x), xhr=lambda: oracle_xhr(*x),
-                  ck=lambda: oracle_cookie_attr(*x), cku=lambda: oracle_cookie_utf8(*x))[kind]
+                  ck=lambda: oracle_cookie_attr(*x), cku=lambda: oracle_cookie_utf8(*x),
+                  ckx=lambda: oracle_cookie_undecodable(*x))[kind]
         return dict(input=i, oracle=[list(b) for b in fn()])
     out = dict(input=i)
     sub = i.get('sub')
@@ -1265,6 +1304,17 @@ HP_ASSUMPTIONS = {
 }
 
 
+HP_NOTE = {
+    'C15': ('request helpers (WSGIHeaderDict, CookieDict, auth, remote_route, is_xhr): header names ASCII; the view lists but cannot '
+            'read back environ keys no WSGI server produces (lower-case / hyphenated tail after HTTP_, HTTP_CONTENT_TYPE); cookie '
+            'attribute access round-trips ASCII values (a character in U+0080..U+00FF is sent octal-escaped and reads as None: the '
+            'mirror image of the recorded finding); a decoded CookieDict copy decodes again on attribute access; '
+            'getunicode(encoding=<unknown codec>) raises LookupError; X-Forwarded-For entries are not validated'),
+    'C18': ('FormsDict accessors: a form field named like a dict method / class attribute is shadowed on attribute access (item '
+            'access still reads it); dunder names raise AttributeError'),
+}
+
+
 def install(cls, quick=None, thorough=None):
     """adds the helper stream to check class `cls`: table, anchors, correspondence, oracle, replay"""
     pid = cls.pid
@@ -1274,6 +1324,7 @@ def install(cls, quick=None, thorough=None):
     cls.anchors = list(cls.anchors) + [a for a in HP_ANCHORS if a not in cls.anchors]
     cls.rule = cls.rule + HP_RULE[pid]
     cls.assumptions = list(cls.assumptions) + HP_ASSUMPTIONS[pid]
+    cls.level_note_extra = (cls.level_note_extra + '; ' if cls.level_note_extra else '') + HP_NOTE[pid]
     o_budget, o_corr, o_search, o_replay, o_nontrivial = cls.budget, cls.corr, cls.search, cls.replay, cls.nontrivial
 
     def budget(self, tier, escalated):
